@@ -540,6 +540,13 @@ pub struct FsTzdbProvider {
 
 impl FsTzdbProvider {
     pub fn get(&self, identifier: &str) -> TemporalResult<Tzif> {
+        // Time zone identifiers are case-insensitive: the data are filed under the spelling the
+        // database uses, whatever the case of the spelling asked for.
+        let identifier = SINGLETON_IANA_NORMALIZER
+            .available_id_index
+            .get(identifier)
+            .and_then(|index| SINGLETON_IANA_NORMALIZER.normalized_identifiers.get(index))
+            .unwrap_or(identifier);
         if let Some(tzif) = self.cache.borrow().get(identifier) {
             #[cfg(temporal_verif)]
             crate::verif::tz::emit(identifier, true);
